@@ -456,7 +456,7 @@ func (s *clientSocket) emitBuffered() {
 			s.sendAckPacket(ackID, values)
 		}
 
-		hasAckFunc := s.callEvent(event.handler, event.header, event.values, sendAck)
+		hasAckFunc := s.callEvent(event.handler, event.header, event.values, event.offset, sendAck)
 
 		if event.header.ID != nil {
 			mu.Lock()
@@ -535,6 +535,7 @@ type clientEvent struct {
 	handler *eventHandler
 	header  *parser.PacketHeader
 	values  []reflect.Value
+	offset  string
 }
 
 type ackSendFunc = func(id uint64, values []reflect.Value)
@@ -545,10 +546,37 @@ func (s *clientSocket) onEvent(
 	decode parser.Decode,
 	sendAck ackSendFunc,
 ) (hasAckFunc bool) {
-	values, err := decode(handler.inputArgs...)
+	types := handler.inputArgs
+	// When connection state recovery is enabled, the server appends the offset
+	// (a string) as the last argument of the events without an acknowledgement.
+	// It is not an argument of the handler. Decode it separately.
+	_, hasOffset := s.pid()
+	hasOffset = hasOffset && header.ID == nil
+	if hasOffset {
+		types = make([]reflect.Type, 0, len(handler.inputArgs)+1)
+		types = append(types, handler.inputArgs...)
+		// Any JSON value is accepted here, so that decoding doesn't
+		// fail when the handler takes fewer arguments than the event has.
+		var offsetPlaceholder *any
+		types = append(types, reflect.TypeOf(offsetPlaceholder))
+	}
+
+	values, err := decode(types...)
 	if err != nil {
 		s.onError(wrapInternalError(err))
 		return
+	}
+
+	var offset string
+	if hasOffset && len(values) == len(handler.inputArgs)+1 {
+		v := values[len(values)-1]
+		for v.IsValid() && (v.Kind() == reflect.Ptr || v.Kind() == reflect.Interface) {
+			v = v.Elem()
+		}
+		if v.IsValid() && v.Kind() == reflect.String {
+			offset = v.String()
+		}
+		values = values[:len(values)-1]
 	}
 
 	if len(values) == len(handler.inputArgs) {
@@ -566,7 +594,7 @@ func (s *clientSocket) onEvent(
 	connected := s.state == clientSocketConnStateConnected
 	s.stateMu.RUnlock()
 	if connected {
-		return s.callEvent(handler, header, values, sendAck)
+		return s.callEvent(handler, header, values, offset, sendAck)
 	} else {
 		s.receiveBufferMu.Lock()
 		defer s.receiveBufferMu.Unlock()
@@ -574,6 +602,7 @@ func (s *clientSocket) onEvent(
 			handler: handler,
 			header:  header,
 			values:  values,
+			offset:  offset,
 		})
 	}
 	return
@@ -583,15 +612,14 @@ func (s *clientSocket) callEvent(
 	handler *eventHandler,
 	header *parser.PacketHeader,
 	values []reflect.Value,
+	offset string,
 	sendAck ackSendFunc,
 ) (hasAckFunc bool) {
 	// Set the lastOffset before calling the handler.
 	// An error can occur when the handler gets called,
 	// and we can miss setting the lastOffset.
-	_, ok := s.pid()
-	if ok && len(values) > 0 && values[len(values)-1].Kind() == reflect.String {
-		s.setLastOffset(values[len(values)-1].String())
-		values = values[:len(values)-1] // Remove offset
+	if offset != "" {
+		s.setLastOffset(offset)
 	}
 
 	ack, _ := handler.ack()
